@@ -4,6 +4,7 @@
 // service/pipelines validation, ...), exactly what otelcol/collector.go does before building a service.
 //
 //	cfgvalidate <docs.ndjson> <out.ndjson>
+//	cfgvalidate walk <trees.ndjson> <out.ndjson>     (walk.go: xconfmap.Validate on generated value trees)
 //
 // input line:  {"doc": "<yaml/json text>", "types": {"receivers":[..],"processors":[..],"exporters":[..],"connectors":[..],"extensions":[..]}}
 // output line: {"i": n, "stage": "" | "get" | "validate", "err": "<text>"}
@@ -42,11 +43,77 @@ type output struct {
 	Err   string `json:"err"`
 	Err2  string `json:"err2,omitempty"`
 	Panic string `json:"panic,omitempty"`
+	View  *view  `json:"view,omitempty"` // typed configuration as decoded (whenever Get succeeded)
 }
 
-type emptyCfg struct{}
+// compCfg is the configuration of every test component: a few real fields, a nested struct and a map of
+// structs, so that "a key no field accepts" can be tried at depth 1, 2 and 3 inside a component body.
+type rowCfg struct {
+	Weight int `mapstructure:"weight" json:"weight"`
+}
 
-func defCfg() component.Config { return &emptyCfg{} }
+type nestedCfg struct {
+	Flag bool   `mapstructure:"flag" json:"flag"`
+	Name string `mapstructure:"name" json:"name"`
+}
+
+type compCfg struct {
+	Endpoint string            `mapstructure:"endpoint" json:"endpoint"`
+	Limit    int               `mapstructure:"limit" json:"limit"`
+	Nested   nestedCfg         `mapstructure:"nested" json:"nested"`
+	Table    map[string]rowCfg `mapstructure:"table" json:"table"`
+}
+
+func defCfg() component.Config {
+	return &compCfg{Endpoint: "default:1", Limit: 7, Nested: nestedCfg{Name: "dflt"}}
+}
+
+// view is the part of the typed configuration the check compares with what the document wrote.
+type view struct {
+	LogsLevel    string                         `json:"logs_level"`
+	MetricsLevel string                         `json:"metrics_level"`
+	Resource     map[string]*string             `json:"resource"`
+	Comps        map[string]map[string]*compCfg `json:"comps"`
+	Pipelines    map[string]map[string][]string `json:"pipelines"`
+	Extensions   []string                       `json:"sexts"`
+}
+
+func viewOf(cfg *otelcol.Config) *view {
+	v := &view{
+		LogsLevel:    cfg.Service.Telemetry.Logs.Level.String(),
+		MetricsLevel: cfg.Service.Telemetry.Metrics.Level.String(),
+		Resource:     cfg.Service.Telemetry.Resource,
+		Comps:        map[string]map[string]*compCfg{},
+		Pipelines:    map[string]map[string][]string{},
+		Extensions:   []string{},
+	}
+	sect := func(name string, m map[component.ID]component.Config) {
+		out := map[string]*compCfg{}
+		for id, c := range m {
+			if cc, ok := c.(*compCfg); ok {
+				out[id.String()] = cc
+			}
+		}
+		v.Comps[name] = out
+	}
+	sect("receivers", cfg.Receivers)
+	sect("processors", cfg.Processors)
+	sect("exporters", cfg.Exporters)
+	sect("connectors", cfg.Connectors)
+	sect("extensions", cfg.Extensions)
+	strs := func(ids []component.ID) []string {
+		out := []string{}
+		for _, id := range ids {
+			out = append(out, id.String())
+		}
+		return out
+	}
+	for pid, p := range cfg.Service.Pipelines {
+		v.Pipelines[pid.String()] = map[string][]string{"receivers": strs(p.Receivers), "processors": strs(p.Processors), "exporters": strs(p.Exporters)}
+	}
+	v.Extensions = strs(cfg.Service.Extensions)
+	return v
+}
 
 func factories(t map[string][]string) otelcol.Factories {
 	f := otelcol.Factories{
@@ -103,6 +170,7 @@ func load(i int, in input) (out output) {
 		out.Stage, out.Err = "get", err.Error()
 		return out
 	}
+	out.View = viewOf(cfg)
 	if err := xconfmap.Validate(cfg); err != nil {
 		out.Stage, out.Err = "validate", err.Error()
 		// the same error value rendered again (a caller that logs it and then prints it): the entry it names must not change
@@ -118,8 +186,13 @@ func load(i int, in input) (out output) {
 
 func main() {
 	if len(os.Args) < 3 {
-		fmt.Fprintln(os.Stderr, "usage: cfgvalidate <docs.ndjson> <out.ndjson>")
+		fmt.Fprintln(os.Stderr, "usage: cfgvalidate [walk] <in.ndjson> <out.ndjson>")
 		os.Exit(64)
+	}
+	walk := false
+	if os.Args[1] == "walk" {
+		walk = true
+		os.Args = append(os.Args[:1], os.Args[2:]...)
 	}
 	f, err := os.Open(os.Args[1])
 	if err != nil {
@@ -152,6 +225,16 @@ func main() {
 		go func() {
 			defer wg.Done()
 			for i := range ch {
+				if walk {
+					var t treeIn
+					if err := json.Unmarshal(lines[i], &t); err != nil {
+						fmt.Fprintln(os.Stderr, "line", i, err)
+						bad.Add(1)
+						continue
+					}
+					results[i], _ = json.Marshal(runWalk(i, t))
+					continue
+				}
 				var in input
 				if err := json.Unmarshal(lines[i], &in); err != nil {
 					fmt.Fprintln(os.Stderr, "line", i, err)
